@@ -63,6 +63,14 @@ class Engine(StmtMixin, CallMixin, ExprMixin, EngineBase):
         fn = fn if fn is not None else extract.find(qual)
         self.cur, self.cur_contract = short, k
         self.index_sites(fn)
+        self.loop_alias = {}
+        # is the contract still about this code?  Names it types (`locals`) must be bound in the function; shape keys of loops must match a loop
+        # (checked after execution).  A contract out of sync makes failed obligations of this function undecided instead of violations.
+        if not k.get("lemma_src"):
+            tables = list(k.get("locals", {})) + [nm for nm in k.get("classes", {}) if "." not in nm] + [nm for nm in k.get("defaultdicts", {}) if "." not in nm]
+            gone = sorted({nm for nm in tables if nm not in self.fn_names and nm not in k.get("params", {}) and nm not in k.get("ghost", {}) and nm != "self"})
+            if gone:
+                self.out_of_sync.setdefault(short, []).append("locals named by the contract (locals / classes / defaultdicts tables) are not bound in the function any more: " + ", ".join(gone))
         body = extract.strip_doc(fn)
         worklist = [[]]
         npaths = 0
@@ -132,6 +140,11 @@ class Engine(StmtMixin, CallMixin, ExprMixin, EngineBase):
         for key in k.get("at_call", {}):
             if key not in self.sites_seen:
                 self.obls.append(Obligation(f"{short}/site-exists[{key}]", "site-exists", ["(set-logic ALL)"], [], "false", fn.lineno, short, expect="site"))
+        if not k.get("lemma_src"):
+            unmatched = sorted(str(key) for key in k.get("loops", {}) if isinstance(key, str) and "|" in key and key not in set(self.loop_alias.values()))
+            n_loops = sum(1 for x in ast.walk(fn) if isinstance(x, (ast.For, ast.While, ast.AsyncFor)))
+            if unmatched and n_loops:
+                self.out_of_sync.setdefault(short, []).append("loop keys of the contract match no loop of the function: " + ", ".join(unmatched))
         self.paths += npaths
         return {"function": short, "paths": npaths, "outcomes": outcomes, "gen_s": round(time.time() - t0, 3)}
 
